@@ -491,7 +491,8 @@ static Result run_case(const Case &c) {
       // every harness object created while the history runs lives in this scope and is gone before heap1 is read
       Result inner;
       run_scenarios(c, inner, tdir);
-      keep = inner.ser();
+      std::string tmp = inner.ser();
+      keep.assign(tmp.data(), tmp.size());  // copies into the pre-reserved buffer: no allocation survives this scope
     }
     size_t heap1 = __sanitizer_get_current_allocated_bytes();
     Census after = settle();
@@ -527,6 +528,7 @@ static Result run_case(const Case &c) {
       r.failf("LeakSanitizer reports leaked allocations after everything was destroyed: %s", rep.substr(0, 1500).c_str());
     }
     long long delta = (long long)heap1 - (long long)heap0;
+    if (getenv("VF_DEBUG")) fprintf(stdout, "DEBUG heap0=%zu heap1=%zu leaks=%d tags=%zu\n", heap0, heap1, leaks, r.tags.size());
     if (!r.fail && delta > 0)
       r.failf("%lld bytes of heap are still allocated after a history that destroyed every object it created (allocator byte count before/after; LeakSanitizer did not flag them, e.g. "
               "because a stale pointer is still on the stack)", delta);
